@@ -49,6 +49,16 @@ registered as known findings): close/reopen marks re-loaded records durable that
 (`restart_marks_unfsynced_precommit_durable`), and after a discard + re-replication a power loss
 brings the DISCARDED transaction back under the acknowledged id
 (`discarded_record_shadows_acked_after_crash`).
+
+SEVERAL EXPORTERS ON ONE PRIMARY (section 7; model `ImmuModel/Store/ExportConc.lean`).  A primary serves all its
+replicas at once: N `ExportTx` calls on one store while clients commit.  Proved: the export is a function of the
+committed transaction alone and determines it (`exports_of_same_tx_equal`, `export_determines_tx`); with one call =
+one atomic read of the committed history, every answer of every exporter under every interleaving with commits is
+the sequential answer (`concurrent_exports_match_sequential`); and for the one piece of `ExportTx` that is shared
+between calls — the store-wide scratch buffer `_valBs` under `_valBsMux`, modelled statement by statement — any number
+of calls under any schedule only ever write the values of their OWN transaction
+(`scratch_buffer_export_delivers_own_values`); the same loop with the `Unlock` moved in front of the copy hands out
+another call's value (`early_unlock_exports_foreign_value`).
 -/
 import ImmuModel.Tx.Proofs.ExportRT
 import ImmuModel.Store.Proofs.ReplicaHdr
@@ -60,6 +70,7 @@ import ImmuModel.Store.Proofs.ReplicaChain
 import ImmuModel.Store.Proofs.AckDurable
 import ImmuModel.Store.Proofs.AckCrash
 import ImmuModel.Store.Proofs.SyncAck
+import ImmuModel.Store.Proofs.ExportConcProofs
 
 namespace ImmuModel.Props.C07
 open ImmuModel ImmuModel.Tx ImmuModel.Merkle ImmuModel.GoInt ImmuModel.Replica ImmuModel.SyncRepl
@@ -491,6 +502,77 @@ theorem replica_reports_within_held (s0 : Sys) (c0 : Nat) (h0 : s0.Init c0) (evs
     ∀ r ∈ (s0.run evs).repls, r.durable ≤ r.pre :=
   SyncAckAux.held_run evs (SyncAckAux.held_init h0)
 
+-- =============================================================== 7. several exporters on one primary
+
+/-- **Any two exports of the same committed transaction are the same bytes.** The writer is a function of the
+committed transaction (header, entries with their values or digests, truncation flag) — of nothing else: not of the
+caller, its `Tx` holder, the other calls in flight or a cache.  This is the obligation the real `ExportTx` is held to
+by the harness: every answer of N concurrent exporters is compared with the sequential answer and with `exportTx` of
+the committed transaction (`c15 xp.enc`). -/
+theorem exports_of_same_tx_equal (x : Parsed) (b b' : Bytes) (h : exportTx x = .ok b) (h' : exportTx x = .ok b') :
+    b = b' :=
+  Except.ok.inj (h.symm.trans h')
+
+/-- **The exported bytes determine the transaction**: two well-formed transactions with the same export have the same
+entries — keys, kv-metadata, VALUES (or digests) —, the same truncation flag and the same header (empty tx metadata
+read as nil).  Hence an export whose value bytes are another entry's is the export of ANOTHER transaction: whatever
+the replica does with it, it is not reproducing the primary's. -/
+theorem export_determines_tx (x y : Parsed) (hx : x.wf = true) (hy : y.wf = true) (b : Bytes)
+    (ex : exportTx x = .ok b) (ey : exportTx y = .ok b) :
+    x.entries = y.entries ∧ x.truncated = y.truncated ∧ x.hdr.norm = y.hdr.norm := by
+  obtain ⟨bx, e1, p1⟩ := export_parse_roundtrip_aux x hx
+  obtain ⟨by', e2, p2⟩ := export_parse_roundtrip_aux y hy
+  have hbx : bx = b := Except.ok.inj (e1.symm.trans ex)
+  have hby : by' = b := Except.ok.inj (e2.symm.trans ey)
+  subst hbx
+  subst hby
+  have h := Except.ok.inj (p1.symm.trans p2)
+  have h1 := congrArg (fun p : Parsed => p.entries) h
+  have h2 := congrArg (fun p : Parsed => p.truncated) h
+  have h3 := congrArg (fun p : Parsed => p.hdr) h
+  exact ⟨h1, h2, h3⟩
+
+/-- **Every answer a concurrent exporter gets is the sequential answer.** Any number of exporters asking for any tx ids
+(overlapping, repeated, ids not yet committed), interleaved in ANY order with the commits of further transactions,
+from any history: each answer other than "tx not found" equals what `ExportTx(id)` answers afterwards, when nothing
+else runs, on the final history — because the history only grows and the answer is `exportTx` of the committed
+transaction.  (One call = one atomic step: the specification of what a call may depend on.  The part of the real call
+that is shared between calls is the subject of the next theorem.) -/
+theorem concurrent_exports_match_sequential (P : List Parsed) (evs : List ExportConc.Ev) (g id : Nat)
+    (a : Except Fault Bytes) (h : (g, id, some a) ∈ (ExportConc.run P evs).2) :
+    ExportConc.exportAt (ExportConc.run P evs).1 id = some a :=
+  ExportConc.ExportConcAux.answers_match_final evs P g id a h
+
+/-- **The scratch buffer never leaks between exports (the loop as written).** `ExportTx` reads each value into the
+store-wide buffer `s._valBs` and copies it from there into its own export; `s._valBsMux` is held from before the read
+until after the copy.  For ANY number of concurrent calls, ANY values (longer than the scratch buffer or not) and ANY
+schedule of their statements: the values a call has written to its export are always a prefix of the values of ITS
+transaction, in order, and a call that has finished has written exactly those; and at most the holder of the mutex is
+inside the critical section. -/
+theorem scratch_buffer_export_delivers_own_values (cap : Nat) (vals : Nat → List Bytes) (sched : List Nat) (i : Nat) :
+    let s := (ExportConc.Sys.init cap vals).run sched
+    (s.ths i).out <+: vals i ∧
+    ((s.ths i).pc = .idle → (s.ths i).todo = [] → (s.ths i).out = vals i) ∧
+    ((s.ths i).pc ≠ .idle → s.owner = some i) := by
+  intro s
+  have hinv := ExportConc.ExportConcAux.inv_run vals sched _ (ExportConc.ExportConcAux.inv_init cap vals)
+  refine ⟨⟨_, hinv.acc i⟩, fun hpc htodo => ?_, hinv.own i⟩
+  have := hinv.acc i
+  have hpc' : (((ExportConc.Sys.init cap vals).run sched).ths i).pc = .idle := hpc
+  have htodo' : (((ExportConc.Sys.init cap vals).run sched).ths i).todo = [] := htodo
+  simp only [ExportConc.ExportConcAux.rem, hpc', htodo', List.append_nil] at this
+  exact this
+
+/-- **Witness: with the mutex released before the copy, a call exports another call's value.** The same loop with
+`Unlock()` moved in front of `buf.Write(valBuf)`: call 0 exports the one-byte value `01`, call 1 the value `02`;
+schedule: 0 locks, reads, unlocks; 1 locks, reads (the scratch buffer now holds `02`); 0 copies.  Call 0 has finished
+and its export carries `02`.  The position of the `Unlock` is what `scratch_buffer_export_delivers_own_values` hangs on. -/
+theorem early_unlock_exports_foreign_value :
+    let vals : Nat → List Bytes := fun i => if i = 0 then [[1]] else if i = 1 then [[2]] else []
+    let s := (ExportConc.Sys.init 4096 vals).runEarlyUnlock [0, 0, 0, 1, 1, 0]
+    (s.ths 0).pc = .idle ∧ (s.ths 0).todo = [] ∧ (s.ths 0).out = [[2]] ∧ (s.ths 0).out ≠ vals 0 := by
+  decide
+
 -- =============================================================== non-vacuity
 
 /-- The empty Synced store satisfies `AckOnDisk`; the hypotheses of the two witnesses are satisfiable
@@ -544,5 +626,14 @@ example : demoSys.Init 0 := by
 
 example : ((demoSys.run demoEvs).repls.map (fun r => (r.pre, r.allowed, r.committed)), (demoSys.run demoEvs).prim.committed)
     = ([(1, 3, 0)], 3) := by decide
+
+/-- Two concurrent exports of the loop as written, values on both sides of the scratch-buffer size (cap 2): a schedule
+in which both calls finish; an event sequence with two exporters, a commit in between and an id asked for too early. -/
+example :
+    let vals : Nat → List Bytes := fun i => if i = 0 then [[1], [1, 2, 3]] else if i = 1 then [[2, 2]] else []
+    let s := (ExportConc.Sys.init 2 vals).run [0, 1, 0, 0, 1, 0, 1, 1, 0, 1, 1, 0, 0, 0, 0]
+    (s.ths 0).out = vals 0 ∧ (s.ths 1).out = vals 1 ∧ s.owner = none := by decide
+example : (ExportConc.run [demoTx] [.export 0 1, .export 1 2, .commit demoTx, .export 1 2, .export 0 1]).2.map (fun a => (a.1, a.2.1, a.2.2.isSome))
+    = [(0, 1, true), (1, 2, false), (1, 2, true), (0, 1, true)] := by decide
 
 end ImmuModel.Props.C07
